@@ -7,6 +7,14 @@ Record share := { sx : fp; sy : list fp }.
 
 Definition fhorner := horner fp fzero fadd fmul.
 Definition finterp_pairs := interp_pairs fp fzero fone fadd fmul fsub finv feqb.
+(* Evaluation strategy only: the code multiplies the accumulator by x_j * inv (x_j - x_i) factor by factor (one
+   inversion per pair of points); here numerators and denominators are accumulated separately and one inversion is
+   made per point.  Equal to the code-shaped finterp_pairs for every input (ShamirFacts.finterp_fast_eq), and what
+   makes thresholds of several hundred affordable in the extracted model. *)
+Definition basis0_fast (a : fp) (l : list fp) : fp :=
+  fmul (fold_left fmul l fone) (finv (fold_left (fun acc b => fmul acc (fsub b a)) l fone)).
+Definition finterp_pairs_fast (l : list (fp * fp)) : fp :=
+  fold_left (fun acc pr => fadd acc (fmul (basis0_fast (fst pr) (others fp feqb (map fst l) (fst pr))) (snd pr))) l fzero.
 
 (* random_polynomial(s, k, rng): k-1 draws (highest degree first), then s *)
 Section Deal.
@@ -115,7 +123,7 @@ Definition interpolate (shs : list share) : outcome bytes :=
   match shs with
   | [] => Err
   | s0 :: _ =>
-      Ok (flat_map (fun i => to_repr (finterp_pairs (map (fun s => (sx s, nth i (sy s) fzero)) shs)))
+      Ok (flat_map (fun i => to_repr (finterp_pairs_fast (map (fun s => (sx s, nth i (sy s) fzero)) shs)))
                    (seq 0 (length (sy s0))))
   end.
 Definition recover (t : N) (shs : list share) : outcome bytes :=
